@@ -5,10 +5,11 @@ use serde_json::{json, Value};
 use vcore::gen::{Env, Index};
 use vcore::runner::{esc, replay_tape, tape_from_json, Failure, Harness, Stats};
 use vcore::spec::{Header, Model};
-use vrun::props::{c01_candidates, c01_check_header, c01_random_prop, c02_prop, c03_sig_prop, c06_prop, Exec};
+use vrun::props::{c01_candidates, c01_check_header, c01_random_prop, c02_prop, c03_sig_prop, c06_prop, c12_unit_prop, Exec};
 use vrun::{Fixture, ProcOut, RunOut};
 
 pub struct Entry {
+    pub root: fn() -> &'static microscpi::Node,
     pub spec_json: &'static str,
     pub run_rec: fn(&Env, &[u8], &[u8]) -> RunOut,
     pub process: fn(&Env, usize, &[u8], &[u8], &[usize]) -> ProcOut,
@@ -16,6 +17,11 @@ pub struct Entry {
 
 pub fn rr<I: Fixture>(env: &Env, pauses: &[u8], input: &[u8]) -> RunOut {
     vrun::run_rec::<I>(Some(env), pauses, input)
+}
+
+pub fn root_of<I: Fixture>() -> &'static microscpi::Node {
+    use microscpi::Interface;
+    I::new_fixture().root_node()
 }
 
 pub fn pp<I: Fixture>(env: &Env, _n: usize, pauses: &[u8], stream: &[u8], reads: &[usize]) -> ProcOut {
@@ -136,7 +142,7 @@ fn main() {
                 },
             );
             if prop == "C01" {
-                let cases = h.tier.pick(60_000u64, 600_000);
+                let cases = h.tier.pick(150_000u64, 600_000);
                 let per = (cases / k as u64).max(1);
                 h.check(
                     "c01.random",
@@ -192,7 +198,7 @@ fn main() {
         }
         "C02" | "C06" => {
             let name = if prop == "C02" { "c02.generated" } else { "c06.generated" };
-            let cases = h.tier.pick(40_000u64, 1_000_000);
+            let cases = h.tier.pick(100_000u64, 1_000_000);
             let per = (cases / k as u64).max(1);
             let rule = format!(
                 "the property of the fixture part, over {} generated declaration sets ({} declarations; mnemonics recur across levels and parents), {} proptest tapes per set, process::<1024>",
@@ -235,7 +241,7 @@ fn main() {
             );
         }
         "C03" => {
-            let cases = h.tier.pick(60_000u64, 1_500_000);
+            let cases = h.tier.pick(120_000u64, 1_500_000);
             let per = (cases / k as u64).max(1);
             let with_params: usize = ifaces.iter().map(|i| i.model.spec.decls.iter().filter(|d| !d.params.is_empty()).count()).sum();
             h.check(
@@ -259,6 +265,33 @@ fn main() {
                     let sigs: Vec<usize> = (0..ifaces[0].model.spec.decls.len()).collect();
                     let tape = tape_from_json(&case["tape"]);
                     c03_sig_prop(&ifaces[0].model, &ex, &sigs, &tape, &mut Stats::default())
+                },
+            );
+        }
+        "C12" => {
+            let cases = h.tier.pick(100_000u64, 1_500_000);
+            let per = (cases / k as u64).max(1);
+            h.check(
+                "c12.generated",
+                &format!("the c12.units relations (unit alone vs unit + tail, prefixes, never Incomplete for a complete unit) on the trees the macro generates for {} generated declaration sets, {} proptest tapes per set, from every reachable path context", k, per),
+                false,
+                |h, st| {
+                    for (ii, iface) in ifaces.iter().enumerate() {
+                        let ix = Index::new(&iface.model, true);
+                        let root = (ENTRIES[ii].root)();
+                        if let Some(mut f) = h.tape_search("c12.generated", per, 200, st, |tape, st| c12_unit_prop(&iface.model, &ix, root, tape, st)) {
+                            f.case["spec"] = iface.spec_json.clone();
+                            f.message = format!("interface {}: {}", iface.model.spec.name, f.message);
+                            return Some(f);
+                        }
+                    }
+                    None
+                },
+                |case| {
+                    let ix = Index::new(&ifaces[0].model, true);
+                    let root = (ENTRIES[0].root)();
+                    let tape = tape_from_json(&case["tape"]);
+                    c12_unit_prop(&ifaces[0].model, &ix, root, &tape, &mut Stats::default())
                 },
             );
         }
